@@ -21,7 +21,12 @@ _RV_FULL.update({m: {"shims": ("struct",)} for m in ("xdsl.transforms.canonicali
                                                      "xdsl.dialects.rv32", "xdsl.dialects.rv64", "xdsl.dialects.riscv.attrs", "xdsl.backend.riscv.lowering.convert_arith_to_riscv",
                                                      "xdsl.backend.riscv.lowering.utils", "xdsl.dialects.riscv.assembly")})
 
+_X86_FULL = dict(_ARITH_FULL)
+_X86_FULL.update({m: {"shims": ("struct",)} for m in ("xdsl.dialects.x86.ops", "xdsl.backend.x86.lowering.convert_arith_to_x86", "xdsl.backend.x86.lowering.convert_func_to_x86_func",
+                                                      "xdsl.dialects.x86.attributes", "xdsl.dialects.x86.assembly")})
+
 CHECKS = {
+    "C21": {"module": "vx.checks.c21", "instrument": {"full": _X86_FULL}, "maxtasksperchild": 6},
     "C19": {"module": "vx.checks.c19", "instrument": {"full": _RV_FULL}, "maxtasksperchild": 10},
     "C22": {"module": "vx.checks.c22", "instrument": {"full": _RV_FULL}, "maxtasksperchild": 6},
     "C28": {"module": "vx.checks.c28", "instrument": {}, "maxtasksperchild": 10},
